@@ -43,7 +43,7 @@ def prepare(tier, seed, scratch):
 
 def gen_cases(tier, seed):
     rng = random.Random(f"c04-{seed}")
-    n = 96 if tier == "quick" else 3000
+    n = 96 if tier == "quick" else 2400
     return [{"seed": rng.getrandbits(40), "heavy": i % 3 == 2, "cli": i % 4 != 0} for i in range(n)]
 
 
